@@ -117,6 +117,8 @@ partial def decSVal : List String → Option (SVal × List String)
 def P : Shape := .struct [("a", .int true 32), ("b", .string)]
 def E : Shape := .enum [("A", .unit), ("B", .newtype (.int true 32)), ("C", .tuple [.int true 32, .string]),
   ("D", .struct [("p", .int false 8), ("q", .option .bool)])]
+def F : Shape := .enum [("O", .newtype (.option (.int true 32))), ("U", .newtype .unit), ("S", .newtype .unitStruct),
+  ("V", .newtype (.seq (.int true 32))), ("X", .unit)]
 def N : Shape := .newtype (.int true 16)
 def T2 : Shape := .tuple [.int true 32, .int true 32]
 
@@ -129,7 +131,8 @@ def typeTable : List Shape :=
    .struct [("x", .option (.int false 8)), ("y", .seq P), ("z", .tuple [.int true 64, .bool])],
    N, T2, .unitStruct, E, .option E, .seq E, .map (.seq T2), .option .unit,
    .tuple [.int true 32], .seq (.tuple [.string, .bool]),
-   .struct [("e", E), ("n", N), ("u", .unitStruct), ("o", .option P)]]
+   .struct [("e", E), ("n", N), ("u", .unitStruct), ("o", .option P)],
+   F, .seq F]
 
 mutual
 def dbg : TVal → List String
